@@ -37,3 +37,19 @@ let () =
         let f = List.map (function L [ a; b ] -> (as_z a, as_z b) | _ -> raise (Bad "pair")) f in
         "{\"r\":\"ok\",\"json\":" ^ jjson (serialize (rewrite_offsets f (as_smap m))) ^ "}"
     | _ -> raise (Bad "sm_rewrite"))
+
+(* C07: SsbScript printing / compiling at statement-list level *)
+let jsstmt = function
+  | SLab l -> "[\"L\"," ^ jnat l ^ "]"
+  | SOpS (c, ps, j) -> "[\"O\"," ^ jname c ^ "," ^ jlist jparam ps ^ "," ^ jopt jnat j ^ "]"
+
+let () =
+  register "script" (function
+    | L [ _; p ] ->
+        let p = as_program p in
+        let printed = (match print_script p with
+          | Ok rs -> "{\"ok\":true,\"stmts\":" ^ jlist (jlist jsstmt) rs ^ ",\"compiled\":"
+              ^ (match compile_script rs with Ok q -> "{\"ok\":true,\"ops\":" ^ jprogram q ^ "}" | Err m -> "{\"ok\":false,\"msg\":" ^ jname m ^ "}") ^ "}"
+          | Err m -> "{\"ok\":false,\"msg\":" ^ jname m ^ "}") in
+        "{\"r\":\"ok\",\"print\":" ^ printed ^ ",\"renumber\":" ^ jprogram (renumber p) ^ "}"
+    | _ -> raise (Bad "script"))
